@@ -279,3 +279,70 @@ def substitution(s: int, a: int, b: int, pa: bool) -> int:
     if got[0] != "ok" or not same(got[1], exp):
         return 0
     return 2
+
+
+
+class _Recorder(list):
+    """A handler object that is a (initially empty, hence falsy) list: it records what it sees and passes through."""
+
+    def __init__(self, default):
+        super().__init__()
+        self.default = default
+
+    def __call__(self, request):
+        self.append(type(request).__name__)
+        return self.default(request)
+
+
+class _LyingCache(lcache.MemoryCache):
+    """exists() claims the entry is there once although it is not; everything else is the real MemoryCache."""
+
+    def __init__(self):
+        super().__init__()
+        self.lies = 1
+        self.sets = 0
+
+    def exists(self, evaluatable, options):
+        if self.lies:
+            self.lies -= 1
+            return True
+        return super().exists(evaluatable, options)
+
+    def set(self, evaluatable, options, value):
+        self.sets += 1
+        return super().set(evaluatable, options, value)
+
+
+@harness("C18", lemma="every-handler-object-every-store", stubs=("S1",), cubes={"mapping_form": [False, True]}, example=dict(mapping_form=False, a=1),
+         timeout=300,
+         bounds="handlers that are callable OBJECTS which are falsy (an empty list subclass with __call__), installed with both forms of "
+                "handle(); a cache backend whose exists() lies once (entry claimed present, get fails, value recomputed)",
+         what="an installed handler is used whatever its truth value; every store into a cache backend - also the one after a failed "
+              "read of a claimed entry - is issued as a CacheSetRequest")
+def every_handler_object_every_store(mapping_form: bool, a: int) -> int:
+    with untraced():
+        backend = _LyingCache()
+
+        def body(x: int = Option("A")):
+            return ("v", x)
+
+        d = dataset(body, cache=backend)
+    rec_eval = _Recorder(rt._DEFAULT_HANDLERS[ltypes.EvaluateRequest])
+    rec_set = _Recorder(rt._DEFAULT_HANDLERS[lcache.CacheSetRequest])
+    ctx = rt.handle({ltypes.EvaluateRequest: rec_eval, lcache.CacheSetRequest: rec_set}) if mapping_form else None
+    with quiet():
+        if ctx is not None:
+            with ctx:
+                got = outcome(lambda: d({"A": a}))
+        else:
+            with rt.handle(ltypes.EvaluateRequest, rec_eval):
+                with rt.handle(lcache.CacheSetRequest, rec_set):
+                    got = outcome(lambda: d({"A": a}))
+    note("result", got, "evaluate requests seen", len(rec_eval), "set requests seen", len(rec_set), "backend set calls", backend.sets)
+    if got[0] != "ok" or not same(got[1], ("v", a)):
+        return 0
+    if len(rec_eval) == 0:
+        return 0                  # the (falsy) handler object was ignored
+    if backend.sets != len(rec_set) or backend.sets != 1:
+        return 0                  # a store reached the backend without its request (or not at all)
+    return 2
